@@ -171,6 +171,25 @@ def mac_rules(facts, rep):
         elif o[0] == "Err":
             good = cte == 0
             ok &= rep.check(good, rule, "row:mac-mismatch=>Err", where(f, f.span), "MAC mismatch => Err(InvalidData)", "an error is raised on a path other than MAC mismatch: %s" % p["decisions"])
+    # invariant behind `assert!(!finalized)`: finalized => data_remaining == 0 *in the object*.  The counter is stored before the MAC is
+    # finalised (and so before any exit that follows): a counter kept in a local and written back only on the success exit leaves
+    # finalized set with a stale non-zero counter when the MAC read/compare fails, and the next read() trips the assertion
+    def field_stores(name):
+        out = []
+        for bi, si, s in f.stmts():
+            if s["k"] == "assign" and [q.get("n") for q in s["place"]["p"] if q["k"] == "field"] == [name] and self_rooted(f, s["place"], None, (bi, si)):
+                out.append((bi, si, s))
+        return out
+    rem_st = field_stores("data_remaining")
+    fin_st = [x for x in field_stores("finalized") if x[2]["rv"]["k"] == "use" and x[2]["rv"]["op"]["k"] == "const" and int(x[2]["rv"]["op"]["v"]) == 1]
+    fr = calls_matching(f, r"finalize_reset$")
+    def before(a, b_bi, b_si):
+        return (a[0] == b_bi and (b_si is None or a[1] < b_si)) or (a[0] != b_bi and f.dominates(a[0], b_bi))
+    good = bool(rem_st) and bool(fin_st) and all(any(before(r_, x[0], x[1]) for r_ in rem_st) for x in fin_st) and \
+        all(any(before(r_, b_, None) for r_ in rem_st) for b_, _ in fr)
+    ok &= rep.check(good, rule, "counter-stored-before-finalize", where(f, f.span), "self.data_remaining is updated before finalized is set / the MAC is finalised",
+                    "the remaining-bytes counter is written back after the MAC is finalised: a failing MAC read/compare leaves finalized set with "
+                    "data_remaining != 0 and the next read() panics on assert!(!finalized)")
     atoms = {a for p in ps for a, v in p["decisions"] if a != "#iter"}
     extra = [a for a in atoms if not re.search(r"data_remaining|constant_time_eq|^discr\(Try::branch|finalized", a)]
     ok &= rep.check(not extra, rule, "atoms", where(f, f.span), "decisions depend only on: remaining == 0, MAC equal, I/O results, finalized", "AesReaderValid::read additionally branches on %s" % extra)
@@ -318,5 +337,6 @@ def run(ctx, rep):
     C03.aes_extra_rules(ctx, facts, rep)
     C04.ae2_rules(facts, rep)
     C04.args_rules(facts, rep)
+    C04.table_rules(facts, rep)        # reported as C16/C04-TABLE: the CRC is enforced for AE-1 and ignored (whatever the field holds) for AE-2
     count_rule(facts, rep, rule="C16-COUNT", only=r"AesReaderValid")
     rep.assume("aes, hmac, sha1, pbkdf2, constant_time_eq crates implement their primitives correctly")
